@@ -1143,7 +1143,7 @@ func init() {
 			"distinct = per-promise projections of the event order (await/resolve interleaving classes).",
 		NumCases: func(tier string) int {
 			if tier == "thorough" {
-				return 6000
+				return 800
 			}
 			return 160
 		},
